@@ -117,13 +117,24 @@ structure LL where
   sinceLast    : Nat             -- time_since_last_event_ in µs
 deriving Repr, DecidableEq
 
--- src: link_layer::adv_received + first end_event (state after the harness' `reset`)
-def init (listenAlways : Bool) (latency counter hop : Nat) : LL :=
+/-- state after CONNECT_IND (interval 30 ms, all 37 channels, the given latency / hop / supervision
+    timeout) and the first connection event, with the planned event's counter set to `counter`
+    (the harness' `reset` / `connect`) -/
+-- src: link_layer::adv_received + first end_event
+def init (listenAlways : Bool) (latency counter hop : Nat) (timeout : Nat := 3200) : LL :=
   let l := if listenAlways then 1 else latency + 1
   { up := true, changed := false, reason := 0x08, counter := counter % W, chIdx := l % 37, lastLat := l,
     listenAlways := listenAlways, pending := none, instant := 0, rxq := [],
-    map := 0x1fffffffff, hop := hop, interval := 24, latency := latency, timeout := 3200,
+    map := 0x1fffffffff, hop := hop, interval := 24, latency := latency, timeout := timeout,
     phyRx := 1, phyTx := 1, sinceLast := l * (24 * 1250) }
+
+/-- a new connection on the same link layer object: `adv_received` resets the connection state,
+    channel map, timing, PDU buffers and the disconnect reason; it does **not** touch the deferred
+    PDU (`defered_ll_control_pdu_`, `defered_conn_event_counter_`) — that one must have been
+    dropped when the previous connection ended (`start_advertising_impl`) -/
+-- src: link_layer::adv_received + first end_event
+def reconnect (s : LL) (latency counter hop timeout : Nat) : LL :=
+  { init s.listenAlways latency counter hop timeout with pending := s.pending, instant := s.instant }
 
 -- src: link_layer::force_disconnect + start_advertising_impl + reset_phy
 def forceDisconnect (s : LL) : LL :=
@@ -266,10 +277,27 @@ def cancelEvent (s : LL) (times : Nat) : LL :=
     { s with counter := sub16 s.counter back, chIdx := (s.chIdx + 518 - back) % 37,
              sinceLast := s.sinceLast - back * (s.interval * 1250), lastLat := 1 }
 
+/-- a connection event in which the central sends an empty PDU -/
+def quietEvent (s : LL) : LL := if s.up then endEvent s [] false else s
+
+/-- the harness' `disconnect`: three quiet connection events, then the local host calls
+    `disconnect()`: LL_TERMINATE_IND (reason 0x16) is queued, and once it is sent and acknowledged
+    (three more quiet events with the test radio) `end_event` calls `force_disconnect()`.
+    Assumption (kept by the generator): no Connection Update reaches its instant in those last three
+    events — `handle_pending_ll_control` would set `state_ = connection_changed` and the pending
+    local disconnect would be forgotten (see docs, observation (e)). -/
+-- src: link_layer::disconnect + send_control_pdus + end_event ("disconnecting && termination_send_")
+def localDisconnect (s : LL) : LL :=
+  if (quietEvent (quietEvent (quietEvent s))).up then
+    forceDisconnect { quietEvent (quietEvent (quietEvent s)) with reason := 0x16 }
+  else quietEvent (quietEvent (quietEvent s))
+
 inductive In where
   | ev (pdus : List Pdu) (listen : Bool)
   | lost
   | cancel (times : Nat)
+  | disconnect                                   -- local host ends the connection
+  | connect (latency counter hop timeout : Nat)  -- CONNECT_IND while advertising
 deriving Repr, DecidableEq
 
 def step (s : LL) (i : In) : LL :=
@@ -278,7 +306,12 @@ def step (s : LL) (i : In) : LL :=
     | .ev pdus listen => endEvent s pdus listen
     | .lost => lostEvent s
     | .cancel t => cancelEvent s t
-  else s
+    | .disconnect => localDisconnect s
+    | .connect _ _ _ _ => s
+  else
+    match i with
+    | .connect l c h t => reconnect s l c h t
+    | _ => s
 
 def run (s : LL) : List In → LL
   | [] => s
